@@ -178,6 +178,10 @@ class Contracts:
     # ------------------------------------------------------------------
     def terms_for(self, qualname, variant=None, pid=None):
         """[(case-name, code canonical term, ref canonical term)]"""
+        if not T.REF_PARAMS:
+            for (q_, v_), (rm_, rfi_, meta_) in self.refs.items():
+                a_ = rfi_.node.args
+                T.REF_PARAMS.setdefault(q_, [x.arg for x in a_.posonlyargs + a_.args + a_.kwonlyargs])
         rm, rfi, meta = self.refs[(qualname, variant)]
         cfi = self.program.func(qualname)
         cl = T.FuncLower(self.program, cfi)
